@@ -213,8 +213,11 @@ def inlOK (f : Fn) (e : Inl) : Bool :=
   | none => true
   | some id => decide (id < f.inls.length)
 
+/-- The return offset of a reporting call must lie STRICTLY inside the function (`c.ret < f.size`): the handler finds the
+function by looking the return ADDRESS up in the code map, and an address equal to the end of a function that fills its
+aligned slot exactly belongs to the next function. -/
 def callOK (f : Fn) (c : Call) : Bool :=
-  if c.cls.reports then (get f.locs c.ret).isSome else true
+  if c.cls.reports then decide (c.ret < f.size) && (get f.locs c.ret).isSome else true
 
 def fnOK (f : Fn) : Bool :=
   !f.bad &&
@@ -245,7 +248,9 @@ def explain (a : Artifact) : String :=
         else if !wfInlined f.inls then "inlined functions do not form a forest (parent id not smaller)"
         else
           match f.calls.find? (fun c => !callOK f c) with
-          | some c => s!"call returning to offset {c.ret} ({repr c.cls}) has no location entry"
+          | some c =>
+            if c.ret < f.size then s!"call returning to offset {c.ret} ({repr c.cls}) has no location entry"
+            else s!"call ({repr c.cls}) returns to offset {c.ret} = end of the function (size {f.size}): the code map attributes that address to the next function"
           | none => "call"
       s!"fn {i} {repr f.kind}: {why}"
 
